@@ -229,11 +229,15 @@ class CircListener(object):
         self.lid = lid
         self.calls = []         # (real circuit object, name, detail)
         self.remove_in_callback = False
+        self.spawn_on_new = False
 
     def _rec(self, obj, name, detail):
         self.calls.append((obj, name, detail))
         if self.remove_in_callback:
             self.run.self_remove(self, obj)
+        if self.spawn_on_new and name == 'new':
+            self.spawn_on_new = False
+            self.run.spawn_listener(self, obj)
 
     def circuit_new(self, circuit):
         self._rec(circuit, 'new', None)
@@ -260,11 +264,15 @@ class StreamListener(object):
         self.lid = lid
         self.calls = []
         self.remove_in_callback = False
+        self.spawn_on_new = False
 
     def _rec(self, obj, name, detail):
         self.calls.append((obj, name, detail))
         if self.remove_in_callback:
             self.run.self_remove(self, obj)
+        if self.spawn_on_new and name == 'new':
+            self.spawn_on_new = False
+            self.run.spawn_listener(self, obj)
 
     def stream_new(self, stream):
         self._rec(stream, 'new', None)
@@ -1101,6 +1109,8 @@ class C08Run(StateRun):
         dbl = CircListener(self, lid) if kind == 'circ' else StreamListener(self, lid)
         if ch.chance(1, 4, 'selfremove') and sim.gate('listener-removed-in-callback'):
             dbl.remove_in_callback = True
+        elif ch.chance(1, 4, 'spawn'):
+            dbl.spawn_on_new = True     # registers a further global listener from inside its first *_new notification
         self.doubles[lid] = dbl
         objs = sorted((m.circs if kind == 'circ' else m.streams).values(), key=lambda o: o.id)
         if objs and ch.chance(1, 3, 'perobj'):
@@ -1124,6 +1134,25 @@ class C08Run(StateRun):
             else:
                 self.state.add_stream_listener(dbl)
         self.regs.append(r)
+
+    def spawn_listener(self, dbl, real):
+        """a global listener double registers another global listener from inside a *_new notification: the
+        object has appeared, so the new listener must hear every transition reported from the next step on"""
+        r0 = self.regs[dbl.lid] if dbl.lid < len(self.regs) else None
+        if r0 is None or r0.scope != 'global':
+            return
+        lid = len(self.regs)
+        late = CircListener(self, lid) if r0.kind == 'circ' else StreamListener(self, lid)
+        self.doubles[lid] = late
+        r = Reg(lid, r0.kind, 'global')
+        r.pending = True
+        self.regs.append(r)
+        self.sim.probe('listener-added-inside-new-notification')
+        self.sim.log('listen-global-in-callback', lid, r0.kind, 'by', dbl.lid)
+        if r0.kind == 'circ':
+            self.state.add_circuit_listener(late)
+        else:
+            self.state.add_stream_listener(late)
 
     def self_remove(self, dbl, real):
         """a listener double unlistens itself from `real` from inside a notification"""
@@ -1160,6 +1189,14 @@ class C08Run(StateRun):
             return
         for r in self.regs:
             dbl = self.doubles[r.lid]
+            if getattr(r, 'pending', False):
+                # registered inside a notification of this step: what it hears of the rest of this step is not
+                # pinned down; from the next step on it must hear everything about every object that still exists
+                r.pending = False
+                r.seen = len(dbl.calls)
+                m = self.model
+                r.excluded = set(o for o in (m.all_circs if r.kind == 'circ' else m.all_streams) if o.gone)
+                continue
             base = r.seen
             got = dbl.calls[r.seen:]
             r.seen = len(dbl.calls)
